@@ -79,4 +79,17 @@ theorem c19_flat_block_exit_placed (f : Orca.Lower.Func) (pre region post : List
     Orca.Lower.lower f = (Orca.Lower.toks pre ++ [sel.tok] ++ Orca.Lower.toks region ++ pr ++ [endI.tok] ++ Orca.Lower.toks post, f.added) :=
   Orca.Lower.blockExit_placed f pre region post sel endI pr hbody hpne hsp hentry hexit hpre hreg hend hpost hsel hk hendk n n2 hd1 hd2 hd3
 
+/-- … and on an `if` (every body): in front of the `else` of that `if`, or of its `end` when it has no `else`, whatever is nested
+    in the then-arm (the repaired defect F13 was exactly a nested construct in the then-arm) -/
+theorem c19_flat_block_exit_placed_if (f : Orca.Lower.Func) (pre arm rest : List Orca.Lower.Instr) (sel closer : Orca.Lower.Instr)
+    (pr : List Orca.Lower.Tok) (hbody : f.body = pre ++ sel :: arm ++ closer :: rest) (hrne : rest ≠ [])
+    (hsp : f.hasSpecial = true) (hentry : f.entry = []) (hexit : f.exit = [])
+    (hpre : ∀ x ∈ pre, Orca.Lower.Clean x) (harm : ∀ x ∈ arm, Orca.Lower.Clean x) (hcl : Orca.Lower.Clean closer)
+    (hrest : ∀ x ∈ rest, Orca.Lower.Clean x) (hsel : Orca.Lower.OnlyExit sel pr) (hk : sel.kind = .if_)
+    (hck : closer.kind = .else_ ∨ closer.kind = .end_)
+    (n n2 : Nat) (hd1 : Orca.Lower.depthAfter pre 1 = some n) (hd2 : Orca.Lower.depthAfterE arm 0 = some 0)
+    (hd3 : Orca.Lower.depthAfter rest (if closer.kind = .else_ then n + 1 else n) = some n2) :
+    Orca.Lower.lower f = (Orca.Lower.toks pre ++ [sel.tok] ++ Orca.Lower.toks arm ++ pr ++ [closer.tok] ++ Orca.Lower.toks rest, f.added) :=
+  Orca.Lower.blockExit_placed_if f pre arm rest sel closer pr hbody hrne hsp hentry hexit hpre harm hcl hrest hsel hk hck n n2 hd1 hd2 hd3
+
 end Orca.Sem
